@@ -427,6 +427,64 @@ def _cmp(a, op, b):
     return {'<': a < b, '<=': a <= b, '>': a > b, '>=': a >= b, '==': a == b, '!=': a != b}[op]
 
 
+def check_candidate_record(rep, prog):
+    """R14h: the candidate record keeps what it is constructed from without loss: its weight in the weight type (the recorded weight is the
+    sort key of the first-found lookup and must equal the true weight of the circuit), its tree number in a type as wide as the tree count.
+    Any narrowing conversion in the constructor's member initialisers is the witness (double -> float merges candidates that differ by less
+    than the float spacing: the heavier of two near-ties can be selected)."""
+    what = 'CandidateCycle stores tree, edge and weight without a narrowing conversion'
+    n = 0
+    for fn in prog.functions:
+        fr = fn.fref
+        if fn.implicit or not fr.get('ctor') or (fr.get('rec') or '') != 'parmcb::CandidateCycle' or fr.get('copy_ctor') or fr.get('move_ctor'):
+            continue
+        n += 1
+        bad = None
+        for ci in fn.ctor_inits:
+            if 'node' not in ci or 'field' not in ci:
+                continue
+            for x in [ci['node']] + list(ci['node'].walk()):
+                if x.k == 'ImplicitCastExpr' and x.j.get('ck') in ('FloatingCast', 'IntegralCast', 'FloatingToIntegral') and x.c:
+                    tt, ft = prog.type(x.j.get('t')) or {}, prog.type(x.c[0].strip().j.get('t')) or {}
+                    order = {'float': 32, 'double': 64, 'long double': 80, 'unsigned char': 8, 'char': 8, 'short': 16, 'unsigned short': 16, 'int': 32, 'unsigned int': 32,
+                             'long': 64, 'unsigned long': 64, 'long long': 64, 'unsigned long long': 64}
+                    wt = order.get((tt.get('canon') or '').replace('const ', '').strip())
+                    wf = order.get((ft.get('canon') or '').replace('const ', '').strip())
+                    if x.j.get('ck') == 'FloatingToIntegral' or (wt is not None and wf is not None and wt < wf):
+                        bad = (ci, ft.get('canon'), tt.get('canon'))
+        if bad:
+            rep.violation('R14h', bad[0]['node'], fn, what, 'member `%s` is initialised through a conversion from %s to %s: candidates whose weights differ by less than the spacing of the '
+                          'narrower type get the same recorded weight, and the recorded weight is no longer the weight of the circuit' % (
+                              prog.vars[bad[0]['field']]['name'], bad[1], bad[2]), key='R14h|%s|narrow' % fn.g)
+        else:
+            rep.ok('R14h', fn.body, fn, what)
+    return n
+
+
+def check_label_folding(rep, prog):
+    """R12a (exact sets): the last rung of the label comparison is decided by the *exact* sets of vertex indices.  A bit mask built with
+    `1 << (index % 64)` (or `& 63`) folds different vertices onto one bit: beyond 64 vertices a common vertex can hide the smallest non-common
+    one, trees of different roots then disagree and the isometric filter drops a needed circuit."""
+    what = 'the vertex sets of the labels are compared exactly (no index folded modulo a word size)'
+    n = 0
+    for fn in prog.functions:
+        if fn.implicit or fn.body is None and not fn.ctor_inits:
+            continue
+        if 'lex_dijkstra' not in fn.file or not ('LexDistance' in fn.g):
+            continue
+        for x in fn.walk():
+            if x.k == 'BinaryOperator' and x.op == '<<' and len(x.c) == 2:
+                rhs = x.c[1].strip_all()
+                fold = [y for y in [rhs] + list(rhs.walk()) if y.k == 'BinaryOperator' and y.op in ('%', '&') and y.c[1].strip_all().cv is not None and
+                        ex.var_of(y.c[0]) is not None]
+                if fold:
+                    n += 1
+                    rep.violation('R12a', x, fn, what, '`%s` maps a vertex index onto one of %s bits: two vertices whose indices agree modulo that number are indistinguishable in the '
+                                  'mask, so the rung that should find the smallest non-common vertex can be decided by a common one' % (x.text(40), fold[0].c[1].text(6)),
+                                  key='R12a|%s|folded-index' % fn.g)
+    return n
+
+
 def check_candidate_completeness(rep, prog):
     """R14g: create_candidate_cycles looks at every edge it is given: a return in front of the edge loop may only fire when the tree
     cannot close any cycle.  `root has fewer than two children` is not such a condition: a non-tree edge incident to the root closes a
@@ -765,6 +823,7 @@ def run(rep, tier):
         rep.rule(r_, d_, floor=0)
     rep.rule('R14b', 'recorded weight formula', floor=2)
     rep.rule('R14c', 'FVS / ISO collections are sub-collections by provenance', floor=2)
+    rep.rule('R14h', 'the candidate record stores its weight and tree number without narrowing', floor=1)
     rep.rule('R14g', 'create_candidate_cycles has no early return that loses candidates through the root', floor=1)
     rep.rule('R07t', 'the set algorithms of the label comparator run over sorted ranges (consistent trees across roots)', floor=1)
     rep.rule('R14f', 'Horton\'s collection has a tree for every vertex of degree >= 2', floor=1)
@@ -785,6 +844,8 @@ def run(rep, tier):
         _c07.r07t(rep, prog, only_files=('lex_dijkstra', 'sptrees', 'cycles.hpp'))
         check_no_candidate_removed(rep, prog)
         check_candidate_completeness(rep, prog)
+        check_candidate_record(rep, prog)
+        check_label_folding(rep, prog)
         n += check_program(rep, prog)
         r14e(rep, prog)
         check_live_references(rep, prog)
